@@ -21,6 +21,10 @@ def unit_risk_tables(variant):
     """{measure: {ticker: [per date]}} - each measure misses one column"""
     if variant == 0:
         return {"M1": {"a": [1.0, 2.0, 0.5, 1.0], "b": [0.5, 0.5, 1.0, 2.0]}, "M2": {"b": [2.0, 1.0, 1.0, 0.5], "c": [1.0, 1.0, 2.0, 4.0]}}
+    if variant == 2:
+        # no risk number for 'a' on the later dates (matured, not yet issued, ...): a flat position carries no risk all the same
+        nan = float("nan")
+        return {"M1": {"a": [1.0, nan, nan, nan], "b": [0.5, 0.5, 1.0, 2.0]}, "M2": {"a": [nan, nan, nan, nan], "b": [2.0, 1.0, 1.0, 0.5], "c": [1.0, 1.0, 2.0, 4.0]}}
     return {"M1": {"a": [0.25, 0.5, 1.0, 2.0], "c": [1.0, 0.5, 0.25, 0.5]}, "M2": {"a": [1.0, 1.0, 1.0, 1.0], "b": [0.5, 1.0, 2.0, 1.0]}}
 
 
@@ -81,6 +85,8 @@ def risk_case(item):
                     return sum(ref(c) for c in n.children.values())
                 u = tables[m].get(n.name)
                 ur_ = u[now_i] if u is not None else 0.0
+                if float(n.position) == 0.0:
+                    return 0.0
                 return ur_ * float(n.position) * float(n.multiplier)
 
             base_depth = len(on)
@@ -347,6 +353,8 @@ def run(ctx):
                 for variant in (0, 1):
                     for history in (0, 1, 2):
                         risk.append((shape, mult, positions, variant, history, 2))
+                if positions[0] == 0.0 and (shape == "T1" or positions[2] == 0.0):
+                    risk.append((shape, mult, positions, 2, 1, 2))
                     if any(q != 0.0 for q in positions):
                         risk.append((shape, mult, positions, variant, 1, 3, 1))
                     if shape == "T2" and any(q != 0.0 for q in positions[:2]):
